@@ -28,6 +28,7 @@ UBASE = dict(
     AllowClose=False, AllowTake=True, AllowRemove=True, AllowAdd=True, AllowCancel=True, AllowDropPool=False,
 )
 USTRUCT = ["TypeOK"]
+MBASE = dict(MaxSize=1, NConns=3, Budget=5, AllowBreak=False, AllowInvalid=False)
 SBASE = dict(K=1, NInteract=2, MaxPending=1, AllowPanic=True, AllowCancel=True)
 
 
@@ -281,6 +282,26 @@ PROPS["C14"] = {
             ("k1", C(K=1, NInteract=4, MaxPending=2), True),
             ("k2", C(K=2, NInteract=4, MaxPending=2), True),
             ("k3", C(K=3, NInteract=4, MaxPending=3), True),
+        ],
+    },
+}
+
+PROPS["C15"] = {
+    "kind": "syncmgr",
+    "invariants": ["Inv_NeverReissued", "Inv_Capacity"], "actprops": ["Act_C15"],
+    "preds": ["M15a", "M15b", "M15c"],
+    "obs_sample": {"quick": 1, "thorough": 1},
+    "configs": {
+        "quick": [
+            ("r2d2", C(MaxSize=2, NConns=4, Budget=5, AllowBreak=True, AllowInvalid=True), True, {"hcfg": {"backend": "r2d2"}}),
+            ("sqlite", C(MaxSize=1, NConns=3, Budget=5), True, {"hcfg": {"backend": "sqlite"}}),
+            ("diesel", C(MaxSize=1, NConns=3, Budget=5, AllowBreak=True), True, {"hcfg": {"backend": "diesel"}}),
+        ],
+        "thorough": [
+            ("r2d2", C(MaxSize=2, NConns=5, Budget=7, AllowBreak=True, AllowInvalid=True), True, {"hcfg": {"backend": "r2d2"}}),
+            ("r2d2m3", C(MaxSize=3, NConns=5, Budget=6, AllowBreak=True), True, {"hcfg": {"backend": "r2d2"}}),
+            ("sqlite", C(MaxSize=2, NConns=4, Budget=6), True, {"hcfg": {"backend": "sqlite"}}),
+            ("diesel", C(MaxSize=2, NConns=4, Budget=6, AllowBreak=True), True, {"hcfg": {"backend": "diesel"}}),
         ],
     },
 }
